@@ -10,8 +10,23 @@ The flowsheets are real `AbstractUnit` objects connected through real `AbstractS
 
 The structure (graph shape, port order, order of the unit list) is the whole input here: there are no
 real-valued leaves.  `Network.sort` is checked in mode S with a *symbolic reachability relation* (one sign
-leaf per ordered pair of items, constrained to a strict partial order: the explorer enumerates the posets);
-everything else is mode B — run-time contracts on stated, exhaustive-up-to-a-bound or seeded families.
+leaf per ordered pair of items, constrained to a strict partial order: the explorer enumerates the orders
+that sort can tell apart); everything else is mode B — run-time contracts on stated, exhaustive-up-to-a-bound
+or seeded families.
+
+Groups
+  C19/sort_partial_orders          S   Network.sort, symbolic strict partial order on 1..4 (5) items
+  C19/from_units_dag_exhaustive    B   the statement, all connected DAGs with 2-4 (5) units, all unit orders
+  C19/from_units_dag_random        B   the statement, seeded DAGs with 5-10 units
+  C19/from_units_cyclic_exhaustive B   the statement, the DAGs above + 1-3 added streams that close cycles
+  C19/from_units_cyclic_random     B   the statement, seeded DAGs with 4-10 units + 1-3 added streams
+  C19/sort_flowsheets              B   Network.sort with the real PathSource on all digraphs with <= 3 (4) units
+  C19/reachability                 B   get_downstream_units / get_upstream_units = reachability closure
+  C19/path_surgery                 B   add_recycle, get_all_recycles, _remove_overlap, _insert_*/_append_* (local effects)
+
+Outside the statement, counted as observations only (see run_from_units): on cyclic flowsheets a unit may be
+listed more than once (in front of a loop and again inside it) and Network.sort may warn "network path could
+not be determined"; C19 demands "every unit appears once" only for acyclic flowsheets.
 """
 import os
 import random
